@@ -249,6 +249,18 @@ var c05Mutations = []c05Mutation{
 			c.setPost(x)
 		}
 	}},
+	// ---- the XML declaration (which no signature covers) names another encoding after signing ----
+	{"declared_encoding_changed_after_signing", func(c *c05Case) {
+		c.Binding = "post"
+		c.Node.Set("ProviderName", "Z\u00fcrcher Kantonalbank \u00e9\u4e2d "+plainString(c.rng, 3))
+		sx := c.signedPost(c.Node, c.keyA(), spsim.XMLSignOpts{Alg: c.Alg})
+		if strings.HasPrefix(sx, "<?xml") {
+			sx = sx[strings.Index(sx, "?>")+2:]
+		}
+		enc := []string{"ISO-8859-1", "latin1", "US-ASCII", "windows-1252", "ISO-8859-15", "UTF-16", "utf-8"}[c.rng.Intn(7)]
+		c.Labels = append(c.Labels, "encoding="+enc)
+		c.setPost(`<?xml version="1.0" encoding="` + enc + `"?>` + sx)
+	}},
 	// ---- content edited after signing ----
 	{"field_edit_after_signing", func(c *c05Case) {
 		n, what := c.editedNode()
